@@ -882,6 +882,9 @@ func (u *Unit) havocLoop(st *State, fr *Frame, li *loopInfo) {
 		st.Assume(Ge(n, old))
 		st.CallCnt[d] = n
 	}
+	if len(ds) > 0 {
+		st.Calls = append(st.Calls, CallEvent{Desigs: ds, Havoc: true})
+	}
 	if eff.chans || eff.all {
 		u.havocChans(st)
 	}
